@@ -11,6 +11,7 @@ mod connect;
 mod negotiate;
 mod ntlm;
 mod ntlmauth;
+mod codec;
 
 use std::io::{self, BufRead, Write};
 
@@ -31,6 +32,9 @@ fn dispatch(op: &str, args: &[&str]) -> String {
         "negotiate" => ntlmauth::op_negotiate(args),
         "auth" => ntlmauth::op_auth(args),
         "unicode" | "ntowfv2" | "lmowfv2" | "ntowfv2h" | "cresp" | "authmsg" => ntlmauth::op_prim(op, args),
+        "bmp" => codec::op_bmp(args),
+        "ord16" => codec::op_ord16(args),
+        "pl32" => codec::op_pl32(args),
         _ => format!("unknown-op:{}", op),
     }
 }
